@@ -15,7 +15,9 @@ RULE = (
     "a live subject first receives the current value, then every later notification; after termination only the terminal; "
     "compared after EVERY command (received lists, exceptions, length of subject.observers). Non-trivial: some subscriber "
     "received a current value that had been pushed by on_next AND (an in-callback unsubscribe of a subscribed observer or "
-    "an in-callback subscribe during an on_next delivery fired, or a subscribe after termination). Distinct = distinct case JSON."
+    "an in-callback subscribe during an on_next delivery fired, or a subscribe after termination). "
+    "A third check (falsy_error, run last) repeats short histories in which on_error is given a valid exception object whose "
+    "truth value is False (it defines __len__ == 0). Distinct = distinct case JSON."
 )
 ASSUMPTIONS = [
     "as C20 (public subscribe, subscription-order delivery, unsubscribe inside subscribe() effective at its return, non-raising callbacks)",
@@ -51,7 +53,7 @@ def checks(tier):
     n = 40 if tier == "quick" else 120
     return [
         Check("enum", _run, cases=_enum, shards={"quick": 8, "thorough": 16}, exhaustive=True),
-        Check("gen", _run, strategy=histories("behavior", n), examples={"quick": 4000, "thorough": 16 * 20000}, shards={"quick": 4, "thorough": 16}),
+        Check("gen", _run, strategy=histories("behavior", n), examples={"quick": 3200, "thorough": 16 * 20000}, shards={"quick": 8, "thorough": 16}),
         # last on purpose: a failure here must not cut the two searches above short
         Check("falsy_error", _run, strategy=histories("behavior", 12, falsy_error=True), examples={"quick": 400, "thorough": 16 * 1000}, shards={"quick": 1, "thorough": 16}),
     ]
